@@ -9,7 +9,7 @@
 From Coq Require Import List NArith ZArith Bool Sorted Permutation.
 Import ListNotations.
 From SV Require Fmt.CmdSeq Fmt.CmdSeqProofs Fmt.ScenesImage Fmt.ScenesImageProofs Fmt.ScenesImageCfg Fmt.ScenesImageCfgProofs
-  Fmt.SmdTpl Fmt.SmdTplProofs Fmt.SmdWords Fmt.TextFields Fmt.TextFieldsProofs Fmt.SndStacks Fmt.SndStacksProofs Fmt.ChoreoBin Fmt.ChoreoBinProofs Fmt.SceneSummary KV.KvBase KV.KvLex KV.KvSym KV.KvLexProofs.
+  Fmt.SmdTpl Fmt.SmdTplProofs Fmt.SmdWords Fmt.TextFields Fmt.TextFieldsProofs Fmt.SndStacks Fmt.SndStacksProofs Fmt.VmtQuote Fmt.VmtQuoteProofs Fmt.ChoreoBin Fmt.ChoreoBinProofs Fmt.SceneSummary KV.KvBase KV.KvLex KV.KvSym KV.KvLexProofs.
 
 (** * Command sequences *)
 Module CS := Fmt.CmdSeq.
@@ -286,6 +286,39 @@ Theorem c20_sndscript_presence_block_refuted :
   /\ let x := SK.mkSnd (A := nat) true None None None in
      fst (SK.export SKP.ref_guard SKP.presence_blocks (SK.touch SK.SStart x)) <> fst (SK.export SKP.ref_guard SKP.presence_blocks x).
 Proof. exact SKP.presence_block_refuted. Qed.
+
+(** * VMT parameters (VQ := Fmt.VmtQuote): `\t<name> <value>\n`, each quoted on demand by vmt._needs_quotes; the decision table
+    is regenerated from vmt.py / tokenizer.py.  Over the bare-string mode of the tokenizer model (the same loop for every
+    configuration without the colon / plus operators), for every table passing [nq_okb] (the check discharges it), on any line
+    but the first (the shader line comes first): *)
+Module VQ := Fmt.VmtQuote.
+Module VQP := Fmt.VmtQuoteProofs.
+
+(** a string the decision lets through unquoted is read back as exactly that string *)
+Theorem c20_vmt_unquoted_reads_back : forall E cfg l v, VQ.nq_okb cfg = true -> l <> 1%N -> VQ.needs_quotes cfg v = false ->
+  KvLexProofs.lexes E l (v ++ [KvBase.SP]) [KvBase.TStr v] l.
+Proof. exact VQP.bare_reads_back. Qed.
+
+(** the whole parameter line is read back as name, value, newline: any name / value the decision lets through, and quoted ones
+    without quote, backslash or line break (partial: the model un-escapes inside quotes, Material.parse reads with escapes
+    disabled, so for the real reader a backslash inside quotes is fine too -- searched, not proved) *)
+Theorem c20_vmt_param_line_reads_back_partial : forall E cfg l name value, VQ.nq_okb cfg = true -> l <> 1%N ->
+  VQP.value_ok cfg name = true -> VQP.value_ok cfg value = true ->
+  KvLexProofs.lexes E l (VQ.param_line cfg name value) [KvBase.TStr name; KvBase.TStr value; KvBase.TNL] (l + 1)%N.
+Proof. exact VQP.param_line_reads_back. Qed.
+
+(** refuted: the decision of the pinned tree (no test for a leading '/': `//x` written bare is a comment); a delimiter missing
+    from the table (a value with a comma is split) *)
+Theorem c20_vmt_leading_slash_refuted :
+  VQ.nq_okb VQP.no_slash_nq = false
+  /\ fst (KvLex.lex_all TFP.ex_escfg ([97; 10]%N ++ VQ.param_line VQP.no_slash_nq [36; 98]%N [47; 47; 120]%N))
+     = [KvBase.TStr [97%N]; KvBase.TNL; KvBase.TStr [36; 98]%N; KvBase.TNL].
+Proof. exact VQP.leading_slash_refuted. Qed.
+Theorem c20_vmt_missing_delimiter_refuted :
+  VQ.nq_okb VQP.no_comma_nq = false
+  /\ fst (KvLex.lex_all TFP.ex_escfg ([97; 10]%N ++ VQ.param_line VQP.no_comma_nq [36; 98]%N [49; 44; 50]%N))
+     <> [KvBase.TStr [97%N]; KvBase.TNL; KvBase.TStr [36; 98]%N; KvBase.TStr [49; 44; 50]%N; KvBase.TNL].
+Proof. exact VQP.missing_delimiter_refuted. Qed.
 
 (** * Binary choreo scenes (BVCD), at the level of raw field values (float32 as bit pattern, quantised values as the
     byte written, strings as pool indexes).  Fmt/ChoreoBin.v describes each class by a layout; the check discharges,
